@@ -1,1 +1,256 @@
-/-! # C18 — property theorems (not built yet) -/
+import PysphVerif.Lemmas.Controller
+/-!
+# C18 — the solver controller never loses a command or a wake-up
+
+Property theorems about `Model/Controller.lean`, the small-step model of
+`pysph/solver/controller.py` at synchronisation-primitive granularity (tied to
+the real `CommandManager` by forced-schedule differential execution,
+harness/c18.py).
+
+Quantifiers: every theorem over `Reachable cfg progs s` holds for **every**
+protocol variant `cfg` (the pinned code `Cfg.orig`, the repaired code
+`Cfg.fixed`, and the mixtures), **any number** of interface threads running
+**arbitrary** operation lists `progs`, and **every** schedule (reachability is
+closed under steps of any enabled thread).
+
+The `…_reachable` theorems exhibit, in the model of the code as pinned
+(`Cfg.orig`), the schedules that block threads forever; the harness replays
+them on the real code.
+-/
+namespace PysphVerif.C18
+open PysphVerif.Controller
+
+/-! ## every queued command is executed exactly once, in order, at a control point -/
+
+/-- At every reachable state the ids ever appended to `queue` are exactly: the
+executed ones (in execution order), then the one the solver has popped and is
+about to run, then the ones still queued — no id is lost, duplicated or
+reordered; in particular no command is executed twice. -/
+theorem queue_exactly_once (cfg : Cfg) (progs : Tid → List Op) (s : State)
+    (hr : Reachable cfg progs s) :
+    s.queuedLog = execIds s ++ inflight s ++ s.queue ∧
+    s.queuedLog.Nodup ∧ (execIds s).Nodup := by
+  have h := (reachable_inv hr).1
+  refine ⟨h.fifo, h.nodup, ?_⟩
+  have hn := h.nodup
+  rw [h.fifo] at hn
+  exact (List.nodup_append.mp (List.nodup_append.mp hn).1).1
+
+/-- A command runs only in the solver thread, inside `run_queued_commands`
+(i.e. at a control point, under `qlock` and `res_lock`), and what is logged is
+the popped id with the solver's current `count` and the command's result. -/
+theorem executed_only_at_control_point (cfg : Cfg) (s s' : State) (t : Tid) (evs : List Ev)
+    (hs : step cfg s t = some (s', evs)) (hne : s'.execLog ≠ s.execLog) :
+    t = 0 ∧ ∃ ctx id c, s.spc = SPc.runAcqRes ctx id c ∧
+      s'.execLog = s.execLog ++ [(id, s.count, cmdVal c s.count)] := by
+  unfold step at hs
+  split at hs
+  · rename_i ht
+    refine ⟨ht, ?_⟩
+    rcases stepSolver_execLog hs with h | h
+    · exact absurd h hne
+    · exact h
+  · exact absurd (stepIface_execLog hs).1 hne
+
+/-- Every queued command still pending is eventually the solver's to run: the
+queue is served first-in first-out by the step that pops it (no reordering). -/
+theorem queue_is_fifo (cfg : Cfg) (progs : Tid → List Op) (s : State)
+    (hr : Reachable cfg progs s) (id : Nat) (hid : id ∈ s.queue) :
+    id ∈ s.queuedLog ∧ id ∉ execIds s := by
+  have h := (reachable_inv hr).1
+  have hn := h.nodup
+  rw [h.fifo] at hn ⊢
+  refine ⟨by simp [hid], fun hx => ?_⟩
+  have := (List.nodup_append.mp hn).2.2 id (by simp [hx]) id hid
+  exact this rfl
+
+/-! ## results -/
+
+/-- What `get_result` hands out for task `k` is the value computed by the one
+execution of `k`, and it is handed out at most once per task. -/
+theorem result_delivered_is_execution_result (cfg : Cfg) (progs : Tid → List Op) (s : State)
+    (hr : Reachable cfg progs s) :
+    (∀ k v, (k, v) ∈ s.delivered → ∃ n, (k, n, v) ∈ s.execLog) ∧
+    (s.delivered.map (·.1)).Nodup ∧
+    (∀ k v, (k, v) ∈ s.results → ∃ n, (k, n, v) ∈ s.execLog) := by
+  have h := (reachable_inv hr).1
+  exact ⟨fun k v hk => h.res k v (Or.inr hk), (List.nodup_append.mp h.resNodup).2.1,
+    fun k v hk => h.res k v (Or.inl hk)⟩
+
+/-- `get_result(k)` gets past the per-command lock only after `k` has run. -/
+theorem get_result_blocks_until_run (cfg : Cfg) (progs : Tid → List Op) (s : State)
+    (hr : Reachable cfg progs s) (t : Tid) (k : Nat) (hk : holding (s.th t).pc = some k) :
+    k ∈ execIds s :=
+  (reachable_inv hr).1.holds t k hk
+
+/-- …and a task that was queued and has not run yet still has its lock held, so
+`get_result` blocks on it. -/
+theorem unexecuted_command_lock_is_held (cfg : Cfg) (progs : Tid → List Op) (s : State)
+    (hr : Reachable cfg progs s) (k : Nat) (hq : k ∈ s.queuedLog) (hx : k ∉ execIds s) :
+    k ∈ s.cLocked := by
+  rcases (reachable_inv hr).1.locked k hq with h | h
+  · exact h
+  · exact absurd h hx
+
+/-! ## pause / wait / cont (safety) -/
+
+/-- Once the solver has honoured thread `t`'s pause request (`t ∈ paused`; in
+the repaired code this is what `wait()` waits for), `t` is still in `pause`, the
+solver sits inside the `while self.pause` loop of `wait_for_cmd`, and no step of
+any thread makes the solver progress (`count` is unchanged) or takes `t` out of
+`paused` — except `t`'s own `cont()`. -/
+theorem paused_solver_makes_no_progress_until_cont (cfg : Cfg) (progs : Tid → List Op)
+    (s : State) (hr : Reachable cfg progs s) (t : Tid) (ht : t ∈ s.paused) :
+    t ∈ s.pause ∧ InLoop s.spc ∧
+    ∀ u s' evs, step cfg s u = some (s', evs) →
+      s'.count = s.count ∧ (t ∈ s'.paused ∨ (u = t ∧ (s.th t).pc = IPc.cAcqP)) := by
+  have hp := reachable_pinv hr
+  have hl : InLoop s.spc := hp.loop (by intro e; rw [e] at ht; cases ht)
+  refine ⟨hp.sub t ht, hl, ?_⟩
+  intro u s' evs hs
+  unfold step at hs
+  split at hs
+  · have := stepSolver_count hs
+    refine ⟨this.1 ?_, Or.inl (this.2 t ht)⟩
+    intro e; rw [e] at hl; exact hl
+  · refine ⟨(stepIface_execLog hs).2, ?_⟩
+    rcases (stepIface_pause (reachable_inv hr).2 hs).2 with ⟨_, e⟩ | ⟨_, e⟩ | ⟨_, hpc, e⟩
+    · left; rw [e]; exact ht
+    · left; rw [e]; exact ht
+    · by_cases hut : t = u
+      · right; subst hut; exact ⟨rfl, hpc⟩
+      · left; rw [e]; simp [ht, hut]
+
+/-- In the repaired code a `wait()` issued under an active `pause_on_next`
+returns only when the solver has honoured the request (hence, by the previous
+theorem, sits at a control point and stays there until `cont()`). -/
+theorem wait_returns_only_when_honoured (cfg : Cfg) (hw : cfg.waitPred = true) (s s' : State)
+    (t : Tid) (evs : List Ev) (ht0 : t ≠ 0) (hs : step cfg s t = some (s', evs))
+    (hpc : (s.th t).pc = IPc.wAcqP ∨ (s.th t).pc = IPc.wReacqP)
+    (hret : (s'.th t).pc = IPc.wRelP) (hp : t ∈ s.pause) : t ∈ s.paused := by
+  unfold step at hs
+  simp only [ht0, if_false] at hs
+  unfold stepIface at hs
+  rcases hpc with hpc | hpc <;> rw [hpc] at hs <;> simp only [hw, if_true] at hs <;>
+    split at hs
+  all_goals first
+    | (cases hs; done)
+    | (simp only [Option.some.injEq, Prod.mk.injEq] at hs
+       obtain ⟨rfl, -⟩ := hs
+       simp only [setPc_th_same] at hret
+       split at hret
+       · cases hret
+       · rename_i hm
+         simp only [mustWait, hp, decide_true, Bool.true_and, Bool.not_eq_true',
+           decide_eq_false_iff_not, Decidable.not_not] at hm
+         exact hm)
+
+/-! ## the pinned protocol blocks threads forever (`Cfg.orig`) -/
+
+private def oneThread (ops : List Op) : State := init (progsOf [ops])
+
+/-- F7 — lost wake-up.  Interface thread: `pause_on_next()`; solver: control
+point, `plock.notify_all()`, `qlock.wait()`; interface thread: `wait()`.  Both
+threads are blocked, nothing is enabled, the program still has `cont()` to run. -/
+theorem lost_wakeup_reachable :
+    let sched := [1, 1, 1, 1, 0, 0, 0, 0, 0, 0, 0, 0, 1, 1, 1]
+    let s := run Cfg.orig (oneThread [Op.pause, Op.wait, Op.cont]) sched
+    runs Cfg.orig (oneThread [Op.pause, Op.wait, Op.cont]) sched = true ∧
+    (s.th 1).pc = IPc.wBlocked ∧ (s.th 1).prog = [Op.cont] ∧ s.spc = SPc.blocked ∧
+    enabled Cfg.orig s 0 = false ∧ enabled Cfg.orig s 1 = false := by
+  decide
+
+/-- `cont()` takes `qlock` inside `plock`, `wait_for_cmd` takes `plock` inside
+`qlock`: AB-BA deadlock of interface thread and solver. -/
+theorem lock_order_deadlock_reachable :
+    let sched := [1, 1, 1, 1, 0, 0, 0, 0, 1, 1, 1]
+    let s := run Cfg.orig (oneThread [Op.pause, Op.cont]) sched
+    runs Cfg.orig (oneThread [Op.pause, Op.cont]) sched = true ∧
+    (s.th 1).pc = IPc.cAcqQ ∧ s.pOwner = some 1 ∧ s.spc = SPc.acqP ∧ s.qOwner = some 0 ∧
+    enabled Cfg.orig s 0 = false ∧ enabled Cfg.orig s 1 = false := by
+  decide
+
+/-- A command queued while the solver is paused is not run before some
+`cont()`: the pausing thread's own `get_result` blocks forever. -/
+theorem get_result_while_paused_deadlock_reachable :
+    let prog := [Op.pause, Op.wait, Op.queue Cmd.probe, Op.getMine 0, Op.cont]
+    let sched := [1, 1, 1, 1, 1, 1, 1, 0, 0, 0, 0, 0, 0, 0, 0, 1, 1, 1, 1, 1, 1, 1, 1, 1]
+    let s := run Cfg.orig (oneThread prog) sched
+    runs Cfg.orig (oneThread prog) sched = true ∧
+    (s.th 1).pc = IPc.rAcqC 0 ∧ s.queue = [0] ∧ s.spc = SPc.blocked ∧
+    enabled Cfg.orig s 0 = false ∧ enabled Cfg.orig s 1 = false := by
+  decide
+
+/-- With two interface threads the second thread's `pause_on_next()` (a
+`plock.notify()`) makes the first thread's `wait()` return although the solver
+has not reached a control point (`spc = start`, `count = 0`). -/
+theorem early_wait_return_reachable :
+    let progs := progsOf [[Op.pause, Op.wait, Op.cont], [Op.pause, Op.cont]]
+    let sched := [1, 1, 1, 1, 1, 1, 1, 2, 2, 2, 2, 1, 1]
+    let s := run Cfg.orig (init progs) sched
+    runs Cfg.orig (init progs) sched = true ∧
+    (s.th 1).pc = IPc.idle ∧ (s.th 1).prog = [Op.cont] ∧ s.spc = SPc.start ∧ s.count = 0 := by
+  decide
+
+/-! ## the repaired protocol on the same schedules (examples, not the general claim) -/
+
+/-- the lost-wake-up schedule, continued: `wait()` sees its request honoured,
+`cont()` releases the solver, everything finishes -/
+example :
+    let sched := [1, 1, 1, 1, 0, 0, 0, 0, 0, 0, 0, 0, 1, 1, 1, 1, 1, 1, 1, 1, 1, 1, 0, 0]
+    let s := run Cfg.fixed (oneThread [Op.pause, Op.wait, Op.cont]) sched
+    runs Cfg.fixed (oneThread [Op.pause, Op.wait, Op.cont]) sched = true ∧
+    (s.th 1).pc = IPc.idle ∧ (s.th 1).prog = [] ∧ s.pause = [] ∧ s.paused = [] ∧
+    enabled Cfg.fixed s 0 = true := by
+  decide
+
+/-- non-vacuity of the safety theorems: a reachable state of the repaired
+protocol in which a command has been queued while the solver was paused, run
+at that control point, and its result fetched by the pausing thread -/
+example :
+    let prog := [Op.pause, Op.wait, Op.queue Cmd.probe, Op.getMine 0, Op.cont]
+    let sched := [1, 1, 1, 1, 0, 0, 0, 0, 0, 0, 0, 0, 1, 1, 1, 1, 1, 1, 1, 1, 1, 1, 1,
+                  0, 0, 0, 0, 0, 0, 0, 0, 1, 1, 1, 1]
+    let s := run Cfg.fixed (oneThread prog) sched
+    runs Cfg.fixed (oneThread prog) sched = true ∧
+    s.execLog = [(0, 1, Val.cnt 1)] ∧ s.delivered = [(0, Val.cnt 1)] ∧ s.paused = [1] ∧
+    (s.th 1).prog = [Op.cont] := by
+  decide
+
+example : ∃ s, Reachable Cfg.fixed (progsOf [[Op.pause, Op.wait, Op.cont]]) s ∧ s.paused = [1] :=
+  ⟨run Cfg.fixed (oneThread [Op.pause, Op.wait, Op.cont]) [1, 1, 1, 1, 0, 0, 0, 0, 0],
+   reachable_run _ Reachable.init (by decide), by decide⟩
+
+/-! ## liveness of the repaired protocol — statement only
+
+The full claim "no interleaving leaves the solver or an interface thread
+blocked forever" for the repaired protocol.  NOT proved here (it needs the
+lock-ownership invariant for all five locks and a ranking argument under weak
+fairness); it is sampled on the real code by the harness (every well-formed
+program must finish under a fair continuation of every sampled schedule) and
+its three counterexamples for the pinned protocol are the theorems above. -/
+
+/-- per thread: `pause_on_next … [wait] … cont` balanced, `wait`/`cont` only
+inside, `get_result` only of own earlier tasks, once each -/
+def WellFormedProg : Bool → Nat → List Nat → List Op → Bool
+  | paused, _, _, [] => !paused
+  | paused, nq, got, Op.pause :: r => !paused && WellFormedProg true nq got r
+  | paused, nq, got, Op.wait :: r => paused && WellFormedProg paused nq got r
+  | paused, nq, got, Op.cont :: r => paused && WellFormedProg false nq got r
+  | paused, nq, got, Op.queue _ :: r => WellFormedProg paused (nq + 1) got r
+  | paused, nq, got, Op.getMine j :: r =>
+    decide (j < nq) && !decide (j ∈ got) && WellFormedProg paused nq (j :: got) r
+  | _, _, _, Op.getResult _ :: _ => false
+  | paused, nq, got, _ :: r => WellFormedProg paused nq got r
+
+/-- in every reachable state of the repaired protocol running well-formed
+programs of `n` interface threads, if some interface thread has not finished
+then some thread can take a step (no deadlock), -/
+def no_deadlock_statement : Prop :=
+  ∀ (n : Nat) (ps : List (List Op)), ps.length = n →
+    (∀ p ∈ ps, WellFormedProg false 0 [] p = true) →
+    ∀ s, Reachable Cfg.fixed (progsOf ps) s →
+      (∃ t, 1 ≤ t ∧ t ≤ n ∧ ¬ ((s.th t).pc = IPc.idle ∧ (s.th t).prog = [])) →
+      ∃ t, t ≤ n ∧ enabled Cfg.fixed s t = true
+
+end PysphVerif.C18
